@@ -43,3 +43,20 @@ Theorem C06_id_place_tables_frozen :
   TablesCur.REMOVAL_MASK = TablesRef.REMOVAL_MASK.
 Proof. exact id_place_tables_frozen. Qed.
 Print Assumptions C06_id_place_tables_frozen.
+
+(* ---- Interval model soundness: the executable interval instance (used by the correspondence check) encloses the
+   ideal-real instance about which the theorems of this file speak.  [encl i x] = the real x lies in the interval i;
+   [sound_opt rel a b] = whenever the interval run answers [Some], the real run answers [Some] with a related value
+   (the interval run may give up with [None], never answer differently). ---- *)
+From A5 Require Import Num.NumOps Num.IvInst Num.IvSound Geo.Authalic Geo.Sphere Geo.Projection Geo.Cell Geo.IvSoundGeo Geo.IvSoundCell.
+
+Theorem C06_interval_lookup_sound : forall lon lat lon' lat' res,
+  encl lon lon' -> encl lat lat' ->
+  sound_opt eq (lonlat_to_cell IvInst lon lat res) (lonlat_to_cell RInst lon' lat' res).
+Proof. exact lonlat_to_cell_sound. Qed.
+Print Assumptions C06_interval_lookup_sound.
+
+Theorem C06_interval_centre_sound : forall id,
+  sound_opt (rout encl2) (cell_to_lonlat IvInst id) (cell_to_lonlat RInst id).
+Proof. exact cell_to_lonlat_sound. Qed.
+Print Assumptions C06_interval_centre_sound.
